@@ -67,7 +67,20 @@ LIB = {
     "Template:pad": " x ",
     "Template:w1": "{{#invoke:echo|both|{{{1}}}|k={{{k|}}}}}",
     "Template:w2": "{{w1|{{{1}}}|k={{{k|}}}}}",
+    "Template:pw": "{{#invoke:echo|pp|{{{1}}}}}",
+    "Template:pw2": "{{#invoke:echo|pp|{{{1}}}}}",
+    "Template:wa": "{{#invoke:echo|dump|{{#invoke:echo|both}}}}",
+    "Template:ew": "{{#invoke:echo|et|{{{1}}}}}",
 }
+
+# histories on ONE page: the same frame API call issued from different calling contexts must give what it gives on a fresh page
+H_FRAGS = ["{{#invoke:echo|both}}", "{{{2}}}", "{{a|x}}", "{{#invoke:echo|both|{{{2|}}}}}", "x"]
+H_CALLS = ["{{#invoke:echo|pp|%d}}", "{{pw|%d|q}}", "{{pw|%d|r}}", "{{pw2|%d|s}}"]
+H_FIXED = ["{{wa|q}}", "{{wa|r}}"]
+
+
+def history_alphabet():
+    return [c % (i + 1) for c in H_CALLS for i in range(len(H_FRAGS))] + H_FIXED
 
 
 def lua_str(s):
@@ -250,6 +263,34 @@ def work(payload, skip, report):
             if i % 401 == 0:
                 acc.sample({"args": lst})
         close_ctx(ctx)
+    elif kind == "hist":
+        _, prefix, length = payload
+        ctx = make_ctx(H_FRAGS)
+        alpha = history_alphabet()
+        single = {}
+        for c in alpha:
+            ctx.start_page("Tt")
+            single[c] = ctx.expand(c)
+        i = 0
+        for rest in itertools.product(alpha, repeat=length - len(prefix)):
+            hist = list(prefix) + list(rest)
+            report(i)
+            i += 1
+            ctx.start_page("Tt")
+            got = [ctx.expand(c) for c in hist]
+            acc.case()
+            acc.distinct("cases", hist)
+            acc.distinct("history_outcomes", got)
+            if got != [single[c] for c in hist]:
+                acc.violation("same_call_same_result_within_page", {"history_on_one_page": hist, "fragments": H_FRAGS}, got, [single[c] for c in hist])
+            # the whole history written as one text
+            ctx.start_page("Tt")
+            got1 = ctx.expand("|".join(hist))
+            if got1 != "|".join(single[c] for c in hist):
+                acc.violation("same_call_same_result_within_text", {"text": "|".join(hist), "fragments": H_FRAGS}, got1, "|".join(single[c] for c in hist))
+            if i % 101 == 0:
+                acc.sample({"history_on_one_page": hist, "results": got})
+        close_ctx(ctx)
     else:
         _, which, items, lo = payload
         ctx = make_ctx(items)
@@ -306,6 +347,12 @@ def main(run):
             for b in names:
                 for c in names:
                     chunks.append(("args", (a, b, c), 4))
+    alpha = history_alphabet()
+    chunks.append(("hist", (), 1))
+    for a in alpha:
+        chunks.append(("hist", (a,), 2))
+        if not q:
+            chunks.append(("hist", (a,), 3))
     frs, ets, cpfs = fragments(run.tier)
     step = 400
     for which, items in (("pp", frs), ("et", ets), ("cpf", cpfs), ("cpft", cpfs)):
@@ -319,7 +366,11 @@ def main(run):
                 "calls as values) x wrapper depth 0,1,2 (invoke on the page; inside a template; inside a template inside a "
                 "template, forwarding {{{1}}} and {{{k|}}}); frame:preprocess: %d grammar fragments of size <= %d; "
                 "frame:expandTemplate: %d (title, args) specs; frame:callParserFunction: %d (name, args) specs in both calling "
-                "conventions. distinct = distinct cases." % (3 if q else 4, len(ATOMS), len(frs), 3 if q else 4, len(ets), len(cpfs)),
+                "conventions; histories on one page: every sequence of <= %d calls over %d (calling context x fragment) calls - "
+                "frame:preprocess of %d fragments (two of which read the parent frame) from the page, from Template:pw with two "
+                "different argument lists, from Template:pw2, and a nested #invoke as an argument value - each compared with the same "
+                "call on a fresh page, both as separate expand() calls and as one text. distinct = distinct cases." % (
+                    3 if q else 4, len(ATOMS), len(frs), 3 if q else 4, len(ets), len(cpfs), 2 if q else 3, len(alpha), len(H_FRAGS)),
         "exhaustive": True,
     }
     assumptions = [
